@@ -182,7 +182,7 @@ pub fn placement_raw(rng: &mut StdRng) -> RawBoard {
     r.move_number = match rng.gen_range(0..7) {
         0 => 65535,
         1 => 65534,
-        2 => *[9u16, 10, 99, 100, 999, 1000, 9999, 10000, 10001].choose(rng).unwrap(),
+        2 => *[0u16, 9, 10, 99, 100, 999, 1000, 9999, 10000, 10001].choose(rng).unwrap(),
         _ => rng.gen_range(1..300),
     };
     r
